@@ -1334,8 +1334,13 @@ fn body_rt(plan: &J) {
     check_waits(false);
     let r = recs().clone();
     note("tasks", r.len());
-    // handles are dropped here
-    HANDLES.lock().unwrap_or_else(|e| e.into_inner()).clear();
+    // The handles that are left refer to event loops that EventLoops::stop() has already freed (a
+    // JoinHandle holds a plain reference to its loop): dropping one now would run clean_task_result on
+    // freed memory. None of the 28 properties is about handles that outlive the runtime, so they are
+    // leaked instead of dropped.
+    for h in HANDLES.lock().unwrap_or_else(|e| e.into_inner()).drain(..) {
+        std::mem::forget(h);
+    }
 }
 
 fn mon_enter_submit(ti: usize) {
